@@ -163,9 +163,16 @@ def gen_frame(cs, lab):
     cells = {}
     for j, (c, k) in enumerate(zip(cols, kinds)):
         vals = []
+        whole = k == "float" and cs.flip(f"{lab}.v{j}.whole", 12)
         for r in range(nrow):
             l2 = f"{lab}.v{j}.{r}"
-            if k == "float":
+            if whole:
+                # a float column holding whole numbers only, some of them
+                # beyond the 64-bit integer range
+                vals.append(cs.choice(l2 + ".w", [3.0, -12.0, 0.0, 2.0 ** 53,
+                                                  1e19, -9.3e18, 2.0 ** 63,
+                                                  1990.0, -2.0 ** 63, 4e18]))
+            elif k == "float":
                 cl = cs.weighted(l2 + ".cl", [("normal", 10), ("tiny", 1),
                                               ("huge", 1), ("negzero", 1),
                                               ("nan", 2 if has_anchor else 0),
